@@ -130,6 +130,19 @@ def split_tsv(text):
     return out
 
 
+ZONES_ENV = {}
+
+
+def dump_zones(exe):
+    """`harness zones` -> the TZif tables the Lean driver reads (C15)."""
+    path = os.path.join(HARNESS, "target", "zones.tsv")
+    r = sh([exe, "zones"], timeout=600)
+    if r.returncode != 0:
+        raise RuntimeError("harness zones failed: " + r.stderr[-2000:])
+    open(path, "w").write(r.stdout)
+    ZONES_ENV["TEMPORAL_ZONES"] = path
+
+
 def run_driver(lines):
     if not lines:
         return []
@@ -139,7 +152,7 @@ def run_driver(lines):
     chunks = [lines[i:i + chunk] for i in range(0, n, chunk)]
 
     def one(ch):
-        r = sh([DRIVER], input="\n".join(ch) + "\n", timeout=3000)
+        r = sh([DRIVER], input="\n".join(ch) + "\n", timeout=3000, env=ZONES_ENV)
         if r.returncode != 0:
             raise RuntimeError("driver failed: " + r.stderr[-2000:])
         res = r.stdout.splitlines()
@@ -250,6 +263,9 @@ def main():
         rp = write_replay(prop, seed, "driver-build", {"log": build_log[-4000:]})
         print(f"VIOLATION property={prop} replay={rp} no-failing-input-found")
         return 1
+
+    if spec.get("needs_zones"):
+        dump_zones(exe)
 
     if replay:
         rj = json.load(open(replay))
